@@ -5,6 +5,7 @@ from lib.props.c08 import parse_view
 LEVEL = "proof"
 MODEL_FILES = ["Model/View.v", "Model/MstM.v", "Model/UnionFindM.v", "Model/AlgoIO.v"]
 THEOREMS = []
+EXTRA_PROPS = ["C12b"]
 STREAMS = [("C12", 3000, 120000)]
 SHARD = 5000
 RULE = ("sparse random weighted multigraphs on 1..8 nodes, weights 0..5 (many repeated weights), self-loops, parallel edges, "
